@@ -235,8 +235,14 @@ func (nfs *Nfs) NFSPROC3_ACCESS(args nfstypes.ACCESS3args) nfstypes.ACCESS3res {
 	defer nfs.recordOp(nfstypes.NFSPROC3_ACCESS, time.Now())
 	var reply nfstypes.ACCESS3res
 	util.DPrintf(1, "NFS Access %v\n", args)
-	reply.Status = nfstypes.NFS3_OK
+	op := fstxn.Begin(nfs.fsstate)
+	ip := op.GetInodeFh(args.Object)
+	if ip == nil {
+		errRet(op, &reply.Status, nfstypes.NFS3ERR_STALE)
+		return reply
+	}
 	reply.Resok.Access = nfstypes.Uint32(nfstypes.ACCESS3_READ | nfstypes.ACCESS3_LOOKUP | nfstypes.ACCESS3_MODIFY | nfstypes.ACCESS3_EXTEND | nfstypes.ACCESS3_DELETE | nfstypes.ACCESS3_EXECUTE)
+	commitReply(op, &reply.Status)
 	return reply
 }
 
@@ -843,6 +849,11 @@ func (nfs *Nfs) NFSPROC3_FSINFO(args nfstypes.FSINFO3args) nfstypes.FSINFO3res {
 	var reply nfstypes.FSINFO3res
 	util.DPrintf(1, "NFS FsInfo %v\n", args)
 	op := fstxn.Begin(nfs.fsstate)
+	ip := op.GetInodeFh(args.Fsroot)
+	if ip == nil {
+		errRet(op, &reply.Status, nfstypes.NFS3ERR_STALE)
+		return reply
+	}
 	reply.Resok.Rtmax = 16 * 4096
 	reply.Resok.Rtmult = 4096
 	reply.Resok.Rtpref = reply.Resok.Rtmax
@@ -859,11 +870,17 @@ func (nfs *Nfs) NFSPROC3_FSINFO(args nfstypes.FSINFO3args) nfstypes.FSINFO3res {
 func (nfs *Nfs) NFSPROC3_PATHCONF(args nfstypes.PATHCONF3args) nfstypes.PATHCONF3res {
 	var reply nfstypes.PATHCONF3res
 	util.DPrintf(1, "NFS PathConf %v\n", args)
-	reply.Status = nfstypes.NFS3_OK
+	op := fstxn.Begin(nfs.fsstate)
+	ip := op.GetInodeFh(args.Object)
+	if ip == nil {
+		errRet(op, &reply.Status, nfstypes.NFS3ERR_STALE)
+		return reply
+	}
 	reply.Resok.Name_max = nfstypes.Uint32(dir.MAXNAMELEN)
 	reply.Resok.No_trunc = true
 	reply.Resok.Linkmax = 1
 	reply.Resok.Case_preserving = true
+	commitReply(op, &reply.Status)
 	return reply
 }
 
